@@ -3,6 +3,7 @@
   mess_ratio of its whole decoded text.
 -/
 import CharsetProof.Props.C13
+import CharsetProof.Lemmas.CharsLeNow
 import CharsetProof.Props.C04e
 import CharsetProof.Lemmas.FloatExact
 set_option linter.unusedSectionVars false
@@ -42,7 +43,6 @@ theorem meanRatio_single (r : F32) (hr : Ok r) : meanRatio [r] = r ∨ ((meanRat
     of every regular candidate *is* `mess_ratio` of its whole decoded text – exactly, the mean over the
     single chunk adds nothing (`x + 0 = x`, `x / 1 = x`). -/
 theorem C13_chaos_is_mess_ratio_full (menv : Md.MdEnv) (cenv : Coh.CohEnv) (o : Oracle)
-    (hchars : ∀ e x t, (worldFull menv cenv o).decode e x = .ok (some t) → t.length ≤ x.length)
     {b : Bytes} {s : Settings} {incl excl : List Name}
     (hincl : canonList ianaNow s.incl = .ok incl) (hexcl : canonList ianaNow s.excl = .ok excl)
     (hfit : Fits b s) (hthr : s.thr.isNaN = false)
@@ -52,7 +52,7 @@ theorem C13_chaos_is_mess_ratio_full (menv : Md.MdEnv) (cenv : Coh.CohEnv) (o : 
       (b.length ≤ tablesNow.tooBig ∨ tablesNow.isMultiByte c.enc = true) →
       ∃ t, c.text = some t ∧ c.chaos = (if t.isEmpty then Fl.zero else Md.messRatio menv t s.thr) := by
   intro m hm c hc hge hsmall
-  obtain ⟨t, ht, hch⟩ := C13_chaos_of_text (W := worldFull menv cenv o) sortMatches_perm hchars hincl hexcl hfit hthr hb h
+  obtain ⟨t, ht, hch⟩ := C13_chaos_of_text (W := worldFull menv cenv o) sortMatches_perm (hchars_full menv cenv o) hincl hexcl hfit hthr hb h
     m hm c hc hge hsmall
   refine ⟨t, ht, ?_⟩
   unfold chaosOfText at hch
